@@ -127,14 +127,14 @@ func JudgeExisting(s *Scenario, en *provscheduling.ExistingNode, originals map[t
 			others = append(others, bp)
 			for _, or := range bp.OwnerReferences {
 				if or.Kind == "DaemonSet" {
-					boundDaemons[or.Name] = true
+					boundDaemons[string(or.UID)] = true
 				}
 			}
 		}
 	}
 	var pendingDaemons []*corev1.Pod
 	for i, d := range s.DaemonPodTemplates() {
-		if !boundDaemons[s.Daemons[i].Name] && oracle.DaemonAdmissible(d, cn) {
+		if !boundDaemons[string(s.Daemons[i].UID)] && oracle.DaemonAdmissible(d, cn) {
 			pendingDaemons = append(pendingDaemons, d)
 		}
 	}
